@@ -179,6 +179,7 @@ class Engine(Interp):
         if s2.aux:
             s2.aux = tuple((h, l, pos(d)) for h, l, d in s2.aux)
         s2.pendload = None
+        s2.loadcache = {}
         if s2.hitpairs:
             s2.hitpairs = tuple((first_alias[a], first_alias[b], m, kt) for a, b, m, kt in s2.hitpairs
                                 if a in first_alias and b in first_alias)[-4:]
@@ -459,7 +460,13 @@ class Engine(Interp):
                     ty = body.locals[stmt['place']['local']]['ty']
                     if plain_data(ty):
                         tg = v[1] if isinstance(v[1], tuple) else (v[1],)
-                        v = self.mk_unknown(s, ty, tg, self.gs_of(s, fid))
+                        ck = tg if (len(tg) >= 3 and tg[0] == 'elem' and isinstance(tg[1], tuple) and tg[1][:1] == ('rep',)) else None
+                        if ck is not None and ck in s.loadcache:
+                            v = s.loadcache[ck]        # the same element, not written in between: the same value
+                        else:
+                            v = self.mk_unknown(s, ty, tg, self.gs_of(s, fid))
+                            if ck is not None and v[0] == 'int':
+                                s.loadcache[ck] = v
                         self.note_loaded(s, tg, v)
                 out.extend(self.store(s, ptr, v))
             return out
